@@ -59,7 +59,8 @@ func (c *sortSliceChecker) VisitExpr(expr ast.Expr) {
 		return
 	}
 	ret, ok := lessFunc.Body.List[0].(*ast.ReturnStmt)
-	if !ok {
+	if !ok || len(ret.Results) != 1 {
+		// A bare return (named result) has no expression to look at.
 		return
 	}
 	cmp := astcast.ToBinaryExpr(astutil.Unparen(ret.Results[0]))
